@@ -510,12 +510,36 @@ pub fn det(args: &[String]) -> Value {
     let cases = read_ndjson(&args[0]);
     let k: usize = args[1].parse().unwrap();
     let tag = args.get(2).cloned().unwrap_or_else(|| "p".into());
+    // the order in which this process meets the programs ("after unrelated work"): fwd, rev or shuffled
+    let order = args.get(3).map(|s| s.as_str()).unwrap_or("fwd");
+    let mut idx: Vec<usize> = (0..cases.len()).collect();
+    match order {
+        "rev" => idx.reverse(),
+        "shuf" => {
+            let mut rng = crate::util::Rng::from_env(77);
+            for i in (1..idx.len()).rev() {
+                idx.swap(i, rng.below(i + 1));
+            }
+        }
+        _ => {}
+    }
     let fuel: u64 = 200_000;
     let mut out = std::io::BufWriter::new(std::io::stdout());
     let mut n = 0u64;
-    for case in &cases {
+    for ci in idx {
+        let case = &cases[ci];
         let stmts = case["prog"].as_array().unwrap();
-        let Ok(text) = catch(|| Renderer::new().program(stmts)) else { continue };
+        let Ok(text) = catch(|| {
+            let mut rd = Renderer::new();
+            let t = rd.program(stmts);
+            for (path, body) in &rd.files {
+                if let Some(dir) = std::path::Path::new(path).parent() {
+                    let _ = std::fs::create_dir_all(dir);
+                }
+                std::fs::write(path, body).expect("cannot write import file");
+            }
+            t
+        }) else { continue };
         for rep in 0..k {
             let r = run_program(&text, case["std"].as_bool().unwrap_or(false), fuel, None, &[]);
             if r.status == "budget" {
@@ -530,5 +554,6 @@ pub fn det(args: &[String]) -> Value {
     }
     out.flush().unwrap();
     let _ = n;
+    let _ = std::fs::remove_dir_all(Renderer::new().import_dir);
     Value::Null
 }
